@@ -656,7 +656,7 @@ func allowIFramesRequiresSandbox(c *Ctx, rule string) {
 		for _, in := range b.Instrs {
 			if cl, ok := in.(*ssa.Call); ok && cl.Common().StaticCallee() == req {
 				args := cl.Common().Args
-				if len(args) == 2 && args[0] == ssa.Value(fn.Params[0]) && args[1] == ssa.Value(fn.Params[1]) {
+				if len(args) == 2 && chainedFrom(args[0], fn.Params[0], 0) && args[1] == ssa.Value(fn.Params[1]) {
 					calls = append(calls, cl)
 				}
 			}
@@ -1469,4 +1469,48 @@ func pairedSettersAgree(c *Ctx, rule string) {
 		}
 	}
 	R.Role(rule, "pairs of an adding and a removing setter on one table", n, 1)
+}
+
+// chainedFrom: v is the policy `root` itself or the *Policy handed back at the end of a fluent chain that started from
+// it — p.AllowAttrs(…).OnElements(…): each link is a static call of a module method on a receiver that is itself chained
+// from root, and every return of that method yields its receiver or the *Policy-typed field of its (builder) receiver.
+func chainedFrom(v ssa.Value, root *ssa.Parameter, d int) bool {
+	if v == ssa.Value(root) {
+		return true
+	}
+	cl, ok := v.(*ssa.Call)
+	if !ok || d > 6 {
+		return false
+	}
+	cal := cl.Common().StaticCallee()
+	if cal == nil || cal.Pkg == nil || cal.Pkg.Pkg.Path() != "github.com/microcosm-cc/bluemonday" || cal.Signature.Recv() == nil || len(cl.Common().Args) == 0 || len(cal.Params) == 0 {
+		return false
+	}
+	if !chainedFrom(cl.Common().Args[0], root, d+1) {
+		return false
+	}
+	// the link hands back its receiver, the policy held by its receiver (a builder's p field) or a new builder
+	// around it; a *Policy result must be one of the first two
+	if !isPolicyPtr(cal.Signature.Results().At(0).Type()) {
+		// a builder-returning link (AllowAttrs, Matching, …): the builder stays tied to the same policy as long as the
+		// final, *Policy-returning link reads it from the builder — judged there
+		return cal.Signature.Results().Len() == 1
+	}
+	for _, b := range cal.Blocks {
+		r, ok := b.Instrs[len(b.Instrs)-1].(*ssa.Return)
+		if !ok {
+			continue
+		}
+		res := r.Results[0]
+		if res == ssa.Value(cal.Params[0]) {
+			continue
+		}
+		if u, ok := res.(*ssa.UnOp); ok {
+			if fa, ok := u.X.(*ssa.FieldAddr); ok && fa.X == ssa.Value(cal.Params[0]) && isPolicyPtr(u.Type()) {
+				continue
+			}
+		}
+		return false
+	}
+	return true
 }
